@@ -23,7 +23,11 @@ OPS = {"assign": "%s = 1", "addassign": "%s += 1", "subassign": "%s -= 1", "mula
        "shrassign": "%s >>= 1", "preinc": "++%s", "postinc": "%s++", "predec": "--%s", "postdec": "%s--", "funref": "wr(%s)"}
 WHERE = {"cg": "global", "ca": "global", "cs": "global", "csa": "global", "tc": "global", "cl": "flocal", "cp": "fparam", "cr": "fparam",
          "crs": "fparam", "mix": "global", "tp": "tparam", "tcr": "tparam", "ks": "select", "ki": "iter", "m": "global", "ma": "global", "ms": "global",
-         "msa": "global", "tm": "global", "l": "flocal", "p": "fparam", "r": "fparam", "rs": "fparam", "tv": "tparam", "tr": "tparam"}
+         "msa": "global", "tm": "global", "l": "flocal", "p": "fparam", "r": "fparam", "rs": "fparam", "tv": "tparam", "tr": "tparam",
+         "oc1": "oldtparam", "oc2": "oldtparam", "oc3": "oldtparam", "om": "oldtparam"}
+# the 3.x syntax (newxta = false): declarations `const N 1;`, parameter groups separated by `;`, instantiation with `:=`
+OLD_DECL = "int m; int i; const cgo 1;"
+OLD_TPARAMS = "int om; const oc1, oc2, oc3"
 
 
 def lv(L):
@@ -48,6 +52,10 @@ TR2 = {"name": "TR2", "params": "int &q1, int &q2", "locations": [{"id": "id0"}]
 
 def mk_placer():
     return batch.Placer(BASE_DECL, tparams=TPARAMS, extra_templates=[TR, TR2], extra_system="P0 = T(1, cg, 1, m);\nsystem P0;")
+
+
+def mk_old_placer():
+    return batch.Placer(OLD_DECL, tparams=OLD_TPARAMS, extra_system="P0 := T(m, 2, 3, 4);\nsystem P0;", job_extra={"newxta": False})
 
 
 def place(n, cs):
@@ -79,6 +87,8 @@ def place(n, cs):
         out.append({"role": "assign", "text": w, "with": {"select": "ks : int[0,1]"}, "ctx": "update+select"})
     elif "tparam" in wheres:
         out.append({"role": "assign", "text": w, "ctx": "update(template parameter)"})
+    elif "oldtparam" in wheres and cs["wf"] != "funref" and cs["lv"][0] == "id":
+        out.append({"role": "assign", "text": w, "ctx": "update(3.x template parameter)", "old": True})
     return out
 
 
@@ -97,9 +107,12 @@ def run(tier):
             case = {"id": cid, "role": pl["role"], "text": pl["text"]}
             if "with" in pl:
                 case["with"] = pl["with"]
+            if pl.get("old"):
+                case["old"] = True
             cases.append(case)
             info[cid] = (cs, pl)
-    verdict = batch.run_placed(vf, cases, mk_placer, c.run_dir, per=50)
+    verdict = batch.run_placed(vf, [x for x in cases if not x.get("old")], mk_placer, c.run_dir, per=50)
+    verdict.update(batch.run_placed(vf, [x for x in cases if x.get("old")], mk_old_placer, c.run_dir, per=50, name="old"))
     nontrivial = drift = 0
     for case in cases:
         cs, pl = info[case["id"]]
